@@ -71,7 +71,7 @@ package gossip
 
 //@ contract (*clusterState).ApplyDelta
 //@   serves C02 C11 C13 C14 C20
-//@   requires[class] forall i int, j int :: 0 <= i && i < len(delta) && 0 <= j && j < len(delta[i].Entries) ==> delta[i].Entries[j].Internal == isInternalKey(delta[i].Entries[j].Key)
+//@   requires[env-class] forall i int, j int :: 0 <= i && i < len(delta) && 0 <= j && j < len(delta[i].Entries) ==> delta[i].Entries[j].Internal == isInternalKey(delta[i].Entries[j].Key)
 //@   ensures[known-kept] forall id string :: old(id in s.nodes) ==> id in s.nodes && s.nodes[id] == old(s.nodes[id])
 //@   ensures[monotone] forall id string :: old(id in s.nodes) ==> s.nodes[id].Version >= old(s.nodes[id].Version)
 //@   ensures[left-sticky] forall id string :: old(id in s.nodes) && old(s.nodes[id].Left) ==> s.nodes[id].Left
@@ -157,3 +157,45 @@ package gossip
 //@   loop 1 invariant[elems] forall j int :: 0 <= j && j < len(deltaEntry.Entries) ==> deltaEntry.Entries[j].Key in seen && deltaEntry.Entries[j].Key in N.Entries && N.Entries[deltaEntry.Entries[j].Key] == deltaEntry.Entries[j] && deltaEntry.Entries[j].Version > fromVersion
 //@   loop 1 invariant[covers] forall k string :: k in seen && k in N.Entries && N.Entries[k].Version > fromVersion ==> (exists j int :: 0 <= j && j < len(deltaEntry.Entries) && deltaEntry.Entries[j].Key == k)
 //@   loop 1 invariant[distinct] forall i int, j int :: 0 <= i && i < j && j < len(deltaEntry.Entries) ==> deltaEntry.Entries[i].Key != deltaEntry.Entries[j].Key
+
+// ---- Digest / Delta / LocalDelta (C02, C03, C13) --------------------------------
+
+//@ contract (*clusterState).Digest
+//@   serves C03 C13 C20
+//@   opt frame true
+//@   ensures[known] forall j int :: 0 <= j && j < len(result) ==> result[j].ID in s.nodes && result[j].Version == s.nodes[result[j].ID].Version && result[j].Left == s.nodes[result[j].ID].Left && result[j].Addr == s.nodes[result[j].ID].Addr
+//@   ensures[complete] forall id string :: id in s.nodes ==> (exists j int :: 0 <= j && j < len(result) && result[j].ID == id)
+//@   loop 1 frame nothing
+//@   loop 1 invariant[inv] csInv(s)
+//@   loop 1 invariant[fresh] cap(digest) == 0 || (fresh(digest) && loopfresh(digest))
+//@   loop 1 invariant[known] forall j int :: 0 <= j && j < len(digest) ==> digest[j].ID in s.nodes && digest[j].Version == s.nodes[digest[j].ID].Version && digest[j].Left == s.nodes[digest[j].ID].Left && digest[j].Addr == s.nodes[digest[j].ID].Addr
+//@   loop 1 invariant[complete] forall id string :: id in seen && id in s.nodes ==> (exists j int :: 0 <= j && j < len(digest) && digest[j].ID == id)
+
+//@ contract (*clusterState).Delta
+//@   serves C02 C03 C13 C20
+//@   opt frame true
+//@   ensures[known] forall i int :: 0 <= i && i < len(result) ==> result[i].ID in s.nodes
+//@   loop 1 frame entries(digestNodes)
+//@   loop 1 invariant[range] rangeindex < len(digest)
+//@   loop 1 invariant[inv] csInv(s) && held(clusterState.mu)
+//@   loop 1 invariant[fresh] (arr(delta) == 0 || (fresh(delta) && loopfresh(delta))) && digestNodes != nil && fresh(digestNodes)
+//@   loop 1 invariant[known] forall i int :: 0 <= i && i < len(delta) ==> delta[i].ID in s.nodes
+//@   loop 2 frame elems(delta)
+//@   loop 2 invariant[inv] csInv(s) && held(clusterState.mu)
+//@   loop 2 invariant[fresh] (arr(delta) == 0 || fresh(delta)) && (arr(delta) == oldloop(arr(delta)) || loopfresh(delta))
+//@   loop 2 invariant[known] forall i int :: 0 <= i && i < len(delta) ==> delta[i].ID in s.nodes
+
+//@ contract (*clusterState).LocalDelta
+//@   serves C02 C03 C18 C20
+//@   opt frame true
+//@   ensures[local] len(result) == 1 && result[0].ID == s.localID
+//@   ensures[all] forall k string :: k in s.nodes[s.localID].Entries ==> (exists j int :: 0 <= j && j < len(result[0].Entries) && result[0].Entries[j].Key == k && result[0].Entries[j] == s.nodes[s.localID].Entries[k])
+
+//@ contract (*clusterState).LocalNodeMetadata
+//@   serves C13 C20
+//@   opt frame true
+//@   ensures[local] result == s.nodes[s.localID].NodeMetadata
+
+//@ contract delta.EntriesTotal
+//@   serves C13 C20
+//@   opt frame true
